@@ -370,6 +370,10 @@ func cause15(shape, path string, jl, jo, ju, exp, act interface{}) string {
 		}
 		p = p[:i]
 	}
+	if shape == "dropped" && (isC(kl) || isC(ko) || isC(ku)) {
+		// a mapping / list / keyed-list element that should be in the result is not there at all
+		return "container-lost:l=" + kl + ",o=" + ko + ",u=" + ku
+	}
 	if (kl == "absent" || ku == "absent" || ko == "absent") && (isC(kl) || isC(ko) || isC(ku)) {
 		// a mapping / list that one side does not have comes back (possibly emptied), or cannot be removed
 		return "container-missing-on-one-side"
@@ -550,51 +554,93 @@ func typeDrift(r, l, u interface{}, path string) (string, string, string) {
 	return "", "", ""
 }
 
-// oneSided15: every edit made only upstream (relative to orig) is in the result, when local = orig elsewhere.
-func oneSided15(c case15, touchedU map[string]bool) []law15 {
+// oneSided15 derives the one-sided edits from the three documents: a place that differs between original
+// and updated while local still has original's value there must hold updated's value in the result
+// (law one_sided); symmetrically a place changed only locally must keep local's value (law one_sided_local).
+// Places are field paths; elements of lists of named mappings are addressed by name. Element-level places
+// are only checked when the implementation can treat the list as keyed (inference on, or a schema known
+// for some source): otherwise the list is atomic by design.
+func oneSided15(c case15) []law15 {
 	var out []law15
-	lDoc, oDoc, u, ok := parse3(c)
+	lDoc, oDoc, uDoc, ok := parse3(c)
 	if !ok {
 		return out
+	}
+	keyed := c.Infer
+	if rs, _, _ := resolveSchema(lDoc, oDoc, uDoc); rs != nil {
+		keyed = true
 	}
 	cls, r, _ := exec15(c)
 	if cls != ClsOk || r == nil {
 		return out
 	}
-	jr, e1 := toJSONValue(r)
-	ju, e2 := toJSONValue(u)
-	if e1 != nil || e2 != nil {
+	jr, e0 := toJSONValue(r)
+	jl, e1 := toJSONValue(lDoc)
+	jo, e2 := toJSONValue(oDoc)
+	ju, e3 := toJSONValue(uDoc)
+	if e0 != nil || e1 != nil || e2 != nil || e3 != nil {
 		return out
 	}
-	for _, p := range sortedKeys(touchedU) {
-		gr, okr := getPath15(jr, p)
-		gu, oku := getPath15(ju, p)
-		if okr != oku || !reflect.DeepEqual(gr, gu) {
+	parentOf := func(p string) string {
+		i := strings.LastIndexAny(p, "/[")
+		if i <= 0 {
+			return ""
+		}
+		return p[:i]
+	}
+	sameAt := func(a, b interface{}, p string) bool {
+		va, oka := getPath15(a, p)
+		vb, okb := getPath15(b, p)
+		return oka == okb && reflect.DeepEqual(va, vb)
+	}
+	side := func(law string, changed, other interface{}, changedName string) {
+		seen := map[string]bool{}
+		for _, d := range diff15(jo, changed, "") {
+			p := d[1]
+			if !keyed && strings.Contains(p, "[name=") {
+				continue
+			}
+			// the other side still has original's value here, and the enclosing container as original has it
+			if !sameAt(other, jo, p) {
+				continue
+			}
+			if par := parentOf(p); par != "" && kindAt15(other, par) != kindAt15(jo, par) {
+				continue
+			}
+			gr, okr := getPath15(jr, p)
+			gc, okc := getPath15(changed, p)
+			if okr == okc && reflect.DeepEqual(gr, gc) {
+				continue
+			}
+			causes := map[string]bool{}
+			if okc && okr {
+				for _, dd := range diff15(gc, gr, p) {
+					causes[cause15(dd[0], dd[1], jl, jo, ju, changed, jr)] = true
+				}
+			} else if !okc {
+				causes[cause15("appeared", p, jl, jo, ju, changed, jr)] = true
+			} else {
+				causes[cause15("dropped", p, jl, jo, ju, changed, jr)] = true
+			}
 			exp, got := "absent", "absent"
-			if oku {
-				exp = jsonText(gu)
+			if okc {
+				exp = jsonText(gc)
 			}
 			if okr {
 				got = jsonText(gr)
 			}
-			jl, _ := toJSONValue(lDoc)
-			jo, _ := toJSONValue(oDoc)
-			causes := map[string]bool{}
-			if oku && okr {
-				for _, d := range diff15(gu, gr, p) {
-					causes[cause15(d[0], d[1], jl, jo, ju, ju, jr)] = true
-				}
-			} else if !oku {
-				causes[cause15("appeared", p, jl, jo, ju, ju, jr)] = true
-			} else {
-				causes[cause15("dropped", p, jl, jo, ju, ju, jr)] = true
-			}
 			for _, shape := range sortedKeys(causes) {
-				out = append(out, law15{"one_sided", "C15/one_sided/" + shape,
-					fmt.Sprintf("path %s changed only upstream: updated has %s, result has %s", p, exp, got)})
+				if seen[shape] {
+					continue
+				}
+				seen[shape] = true
+				out = append(out, law15{law, "C15/" + law + "/" + shape,
+					fmt.Sprintf("path %s changed only in %s: %s has %s, result has %s", p, changedName, changedName, exp, got)})
 			}
 		}
 	}
+	side("one_sided", ju, jl, "updated")
+	side("one_sided_local", jl, ju, "local")
 	return out
 }
 
@@ -720,9 +766,124 @@ func runC15(r *Run, rng *Rng, tier string) error {
 		}
 		runOne15(r, c, touchedU)
 	}
+	// typed builtin kinds whose apiVersion differs between the sources (known vs unknown / deprecated), keyed
+	// lists edited on both sides: Walker.GetSchema must fall through to the first source with a known version
+	nTyped := 260
+	if tier == "thorough" {
+		nTyped = 3000
+	}
+	for i := 0; i < nTyped; i++ {
+		runOne15(r, genTyped15(rng.Fork()), nil)
+	}
 	r.header += internHeader()
 	r.shard = 150
 	return nil
+}
+
+// genTyped15: (local, original, updated) of one Deployment / StatefulSet / Pod / Service; local and updated carry
+// edits on different places (local adds a sidecar container / an env var / a volume, upstream bumps an image,
+// adds another env var, changes replicas ...); each source gets the known or an unknown apiVersion, at least
+// one of them the known one.
+func genTyped15(rng *Rng) case15 {
+	var o *g4
+	var ks kindSpec
+	for {
+		o, ks = genTarget(rng)
+		if unknownVersion(ks.kind) != "" {
+			break
+		}
+	}
+	podSpec := func(d *g4) *g4 {
+		if ks.kind == "Pod" {
+			return d.get("spec")
+		}
+		if ks.kind == "Service" {
+			return nil
+		}
+		return d.get("spec").get("template").get("spec")
+	}
+	l, u := o.clone(), o.clone()
+	// local edits
+	if ps := podSpec(l); ps != nil {
+		cs := ps.get("containers")
+		if rng.Chance(75) {
+			cs.vals = append(cs.vals, gM("name", "sidecar", "image", "sidecar:1"))
+		}
+		if rng.Chance(40) {
+			c0 := cs.vals[rng.Intn(len(cs.vals))]
+			env := c0.get("env")
+			if env == nil {
+				env = &g4{kind: 2}
+				c0.set("env", env)
+			}
+			env.vals = append(env.vals, gM("name", "LOCAL_ONLY", "value", `"1"`))
+		}
+		if rng.Chance(30) {
+			vs := ps.get("volumes")
+			if vs == nil {
+				vs = &g4{kind: 2}
+				ps.set("volumes", vs)
+			}
+			vs.vals = append(vs.vals, gM("name", "localvol", "emptyDir", gM()))
+		}
+	} else {
+		l.get("metadata").set("labels", gM("local", "yes"))
+		if rng.Chance(60) {
+			ports := l.get("spec").get("ports")
+			ports.vals = append(ports.vals, gM("port", "7001", "name", "local"))
+		}
+	}
+	// upstream edits
+	if ps := podSpec(u); ps != nil {
+		cs := ps.get("containers")
+		c0 := cs.vals[0]
+		c0.set("image", gS(c0.get("name").text+":upstream"))
+		if rng.Chance(40) {
+			env := c0.get("env")
+			if env == nil {
+				env = &g4{kind: 2}
+				c0.set("env", env)
+			}
+			env.vals = append(env.vals, gM("name", "UPSTREAM_ONLY", "value", "u"))
+		}
+		if rng.Chance(30) {
+			cs.vals = append(cs.vals, gM("name", "upstream-helper", "image", "helper:1"))
+		}
+		if ks.kind != "Pod" && rng.Chance(50) {
+			u.get("spec").set("replicas", gS("7"))
+		}
+	} else {
+		u.get("spec").set("type", gS("LoadBalancer"))
+		if rng.Chance(60) {
+			ports := u.get("spec").get("ports")
+			ports.vals = append(ports.vals, gM("port", "7002", "name", "upstream"))
+		}
+	}
+	// apiVersions: at least one source keeps the known version
+	alt := unknownVersion(ks.kind)
+	docs := []*g4{l, o, u}
+	mask := 1 + rng.Intn(6) // 1..6: never all three unknown (7), 0 = all known is drawn separately
+	if rng.Chance(15) {
+		mask = 0
+	}
+	for i, d := range docs {
+		if mask&(1<<uint(i)) != 0 {
+			d.set("apiVersion", gS(alt))
+		}
+	}
+	if rng.Chance(25) {
+		// the same documents without apiVersion / kind, inference on: every list of named mappings is keyed by
+		// inference, including the lists nested in keyed-list elements (containers[].env, volumeMounts)
+		for _, d := range docs {
+			d.keys = filterOut(d.keys, "apiVersion", &d.vals)
+			d.keys = filterOut(d.keys, "kind", &d.vals)
+			// volumeMounts are keyed by mountPath in the schema; by name (what inference would use) they repeat
+			stripKey15(d, "volumeMounts")
+		}
+		return case15{Local: l.yaml(), Orig: o.yaml(), Upd: u.yaml(), Infer: true, Law: "typed:" + ks.kind + ":kindless-infer"}
+	}
+	return case15{Local: l.yaml(), Orig: o.yaml(), Upd: u.yaml(), Infer: rng.Chance(40),
+		Law: fmt.Sprintf("typed:%s:unknown-version-mask=%d", ks.kind, mask)}
 }
 
 func runOne15(r *Run, c case15, touchedU map[string]bool) {
@@ -745,9 +906,7 @@ func runOne15(r *Run, c case15, touchedU map[string]bool) {
 	r.Count("changed", fmt.Sprint(nontrivial))
 	r.AddCase(term, c, nontrivial)
 	vs := laws15(c)
-	if c.Law == "L4" && touchedU != nil {
-		vs = append(vs, oneSided15(c, touchedU)...)
-	}
+	vs = append(vs, oneSided15(c)...)
 	for _, v := range vs {
 		r.Count("law_failures", v.Class)
 		r.Violation(OracleViolation{Law: v.Law, Class: v.Class, Detail: v.Detail, Replay: c})
@@ -781,11 +940,19 @@ func replayC15(path string) (bool, string, error) {
 		res, _ = out.String()
 	}
 	detail := fmt.Sprintf("class=%s msg=%q result:\n%s", cls, msg, res)
-	vs := laws15(rp.Case)
-	for _, v := range vs {
-		detail += fmt.Sprintf("\nLAW %s class=%s: %s", v.Law, v.Class, v.Detail)
+	// the five merge laws incl. the one-sided edits derived from the triple; recorded findings do not count
+	known := knownClasses("C15")
+	bad := 0
+	for _, v := range append(laws15(rp.Case), oneSided15(rp.Case)...) {
+		tag := "LAW"
+		if known[v.Class] {
+			tag = "KNOWN"
+		} else {
+			bad++
+		}
+		detail += fmt.Sprintf("\n%s %s class=%s: %s", tag, v.Law, v.Class, v.Detail)
 	}
-	return cls == ClsPanic || len(vs) > 0, detail, nil
+	return cls == ClsPanic || bad > 0, detail, nil
 }
 
 func hasEmptyList(vs ...interface{}) bool {
@@ -816,4 +983,16 @@ func hasEmptyList(vs ...interface{}) bool {
 		}
 	}
 	return false
+}
+
+func stripKey15(g *g4, key string) {
+	if g == nil {
+		return
+	}
+	if g.kind == 1 {
+		g.keys = filterOut(g.keys, key, &g.vals)
+	}
+	for _, v := range g.vals {
+		stripKey15(v, key)
+	}
 }
